@@ -136,7 +136,8 @@ def setup(case, wd, inj_ref):
             if not os.path.exists(plain):
                 with open(plain, "wb") as f:
                     f.write(b"PLAIN-FILE")
-            t = ir.ExternalTensor("plain.bin/inner.bin", 0, len(data), ir.DataType.UINT8, shape=ir.Shape([len(data)]), name=f"w{i}", base_dir=wd)
+            # (or the location holds a NUL byte: the operating system is not even asked, Python raises ValueError)
+            t = ir.ExternalTensor("plain.bin/inner.bin" if sp["seed"] % 2 else "a\x00b.bin", 0, len(data), ir.DataType.UINT8, shape=ir.Shape([len(data)]), name=f"w{i}", base_dir=wd)
         elif kind == 3:
             inner = ir.Tensor(arr, name=f"w{i}")
             t = ir.LazyTensor(lambda inner=inner: inner, ir.DataType.UINT8, ir.Shape([len(data)]), name=f"w{i}")
